@@ -101,10 +101,12 @@ func (e *Evaluator) checkGo(cases []*Case, files map[string][]string) {
 		}
 		if len(loadErr) == 0 {
 			// every remaining unit was compiled in this invocation
+			e.vmu.Lock()
 			for id, c := range pending {
 				e.goPkgsCompiled += countGoPkgs(files[c.ID])
 				e.verdicts[hashOf[id]] = dedupRaw(verdict[id])
 			}
+			e.vmu.Unlock()
 			pending = map[string]*Case{}
 			break
 		}
@@ -116,7 +118,9 @@ func (e *Evaluator) checkGo(cases []*Case, files map[string][]string) {
 			}
 		}
 		for id := range loadErr {
+			e.vmu.Lock()
 			e.verdicts[hashOf[id]] = dedupRaw(verdict[id])
+			e.vmu.Unlock()
 			os.RemoveAll(filepath.Join(dir, id))
 			delete(pending, id)
 		}
